@@ -11,6 +11,10 @@ using sh::xobj;
 
 static long g_next_serial = 0;
 
+struct item3 { char c[3]; };
+struct item7 { char c[7]; };
+struct item24 { long v[3]; };
+
 struct Slot {
     bool live = false;
     std::coroutine_handle<> h;
@@ -134,6 +138,9 @@ static bool do_init(Env &e, long x, long a, long b) {
     } else if (g == "st_buf") {
         if (a == 1) e.store = make<BufStore<char>>((std::size_t)b);
         else if (a == 8) e.store = make<BufStore<long>>((std::size_t)b);
+        else if (a == 3) e.store = make<BufStore<item3>>((std::size_t)b);      // sizes that do not divide the frame size
+        else if (a == 7) e.store = make<BufStore<item7>>((std::size_t)b);
+        else if (a == 24) e.store = make<BufStore<item24>>((std::size_t)b);
         else return false;
     } else return false;
     return true;
@@ -202,6 +209,7 @@ static void run_case(const vh::Case &cs) {
             sh::Block b = sh::block_of(s.ptr);
             sh::tl_mark m;
             sh::tl_nev = 0;
+            sh::tl_top_dsz = 0;
             {
                 counted c_;
                 s.h.resume();    // the body checks its canaries and runs to the final suspend
@@ -209,7 +217,7 @@ static void run_case(const vh::Case &cs) {
             }
             long rel = b.found && b.heap && !sh::g_reg.has(b.base, b.serial);
             s.live = false;
-            std::vector<long> v{0, m.news(), m.dels(), rel, s.ok};
+            std::vector<long> v{0, m.news(), m.dels(), rel, s.ok, (long)sh::tl_top_dsz};
             for (int i = 0; i < sh::tl_nev; i++) v.push_back(sh::tl_evs[i]);
             vh::print_obs(v);
             e.store->after_finish(s);
